@@ -122,18 +122,28 @@ bool ThreadPool::initialize(ssize_t min_thread_num, ssize_t max_thread_num)
         return false;
     }
 
+    bool created_all = true;
     {
         std::lock_guard<std::mutex> lg(d_->lock);
         d_->min_thread_num = min_thread_num;
         d_->max_thread_num = max_thread_num;
         d_->all_threads_stop_flag = false;  //! 必须在锁内、且在创建工作线程之前
 
-        for (ssize_t i = 0; i < min_thread_num; ++i)
-            if (!createWorker())
-                return false;
+        for (ssize_t i = 0; i < min_thread_num; ++i) {
+            if (!createWorker()) {
+                created_all = false;
+                break;
+            }
+        }
     }
 
     d_->is_ready = true;
+
+    //! 有线程创建失败：把已经创建的线程停掉并 join()，不留下无人管理的工作线程
+    if (!created_all) {
+        cleanup();
+        return false;
+    }
 
     return true;
 }
@@ -178,7 +188,12 @@ ThreadPool::TaskToken ThreadPool::execute(NonReturnFunc &&backend_task, NonRetur
         //! 如果空闲线程不够分配未认领的任务，且还可以再创建新的线程
         if (d_->undo_tasks_cabinet.size() > d_->idle_thread_num) {
             if (d_->threads_cabinet.size() < d_->max_thread_num) {
-                createWorker();
+                //! 线程创建失败且一个工作线程都没有：该任务将无人执行，撤回并返回空 token 告知调用者
+                if (!createWorker() && d_->threads_cabinet.empty()) {
+                    d_->undo_tasks_token.at(level).pop_back();
+                    d_->task_pool.free(d_->undo_tasks_cabinet.free(token));
+                    return TaskToken();
+                }
             } else {
                 if (d_->undo_task_peak_num_ < d_->undo_tasks_cabinet.size())
                     d_->undo_task_peak_num_ = d_->undo_tasks_cabinet.size();
@@ -427,14 +442,21 @@ bool ThreadPool::createWorker()
 {
     RECORD_SCOPE();
     ThreadToken thread_token = d_->threads_cabinet.alloc();
-    auto *new_thread = new std::thread(std::bind(&ThreadPool::threadProc, this, thread_token));
+    std::thread *new_thread = nullptr;
+    try {
+        new_thread = new std::thread(std::bind(&ThreadPool::threadProc, this, thread_token));
+    } catch (const std::exception &e) {
+        //! std::thread 的构造在 pthread_create() 失败（EAGAIN）时抛 std::system_error，而不是返回空指针
+        LogErr("new thread fail, %s", e.what());
+    }
+
     if (new_thread != nullptr) {
         d_->threads_cabinet.update(thread_token, new_thread);
         LogDbg("create thread %u", thread_token.id());
         return true;
 
     } else {
-        LogErr("new thread fail");
+        d_->threads_cabinet.free(thread_token);    //! 不留下没有线程对象的空位：cleanup() 会对它 join()
         return false;
     }
 }
